@@ -114,6 +114,9 @@ def oracle_real(x, imf_opts, envelope_opts, extrema_opts):
                           % (k, float(np.abs(imf - val).max()) if imf.shape == val.shape else -1)))
         if k == 0 and (flag or not np.array_equal(imf[:, 0], x)):
             fails.append(('get_next_imf', 'the input itself has too few extrema: it must come back unmodified and flagged as the final residual'))
+        if k > 0 and not flag and imf_opts.get('energy_thresh') is None:
+            fails.append(('get_next_imf', 'iterate %d (not the input) lost its extrema and came back flagged as the FINAL residual although the '
+                          'input itself has enough extrema: only the unmodified input may be flagged final' % k))
     path = '%s-%s' % (imf_opts.get('stop_method', 'sd'), kind if kind != 'stop' else ('stop@%s' % ('0' if k == 0 else '1-3' if k < 4 else '4+')))
     return fails, path, (rec, got, flag, imf), False
 
@@ -270,6 +273,9 @@ def explain(inp, got, exp):
             return 'script %s: returned iterate index %d, the property requires %d (%s at iterate %d)' % (inp, got[1], want_idx, kind[0], k)
         if kind == ('noenv', 0) and got[2] != 0:
             return 'script %s: input without envelopes must be flagged as the final residual' % inp
+        if kind[0] == 'noenv' and k > 0 and got[2] != 1:
+            return ('script %s: iterate %d (not the input) lost its envelopes and came back flagged as the FINAL residual although the input '
+                    'itself had envelopes' % (inp, k))
         if kind[0] == 'stop' and got[2] != 1:
             return 'script %s: a converged IMF came back flagged final' % inp
         return None
